@@ -641,12 +641,14 @@ def main(tier):
     ex = Explorer(C15(), variant="ossl-plain")
     found = {}
     complete = True
-    cov_a, cov_b = [], []
+    cov_a, cov_b, samples_a = [], [], []
     total_nodes = total_sched = total_probes = 0
     try:
         # ---- (a) call granularity
         for nprocs, public, depth, plen in ((2, (), 4, 2), (2, (1,), 4, 2), (3, (), 3, 2)) if quick else ((2, (), 5, 3), (2, (1,), 5, 3), (3, (), 4, 2), (3, (2,), 4, 2)):
             tasks = [([nprocs, list(public)], pre, depth) for pre in call_sequences(nprocs, plen, public)]
+            samples_a.append({"processes": nprocs, "not_logged_in": list(public), "depth": depth, "one_explored_prefix": [list(a) for a in tasks[len(tasks) // 2][1]],
+                              "continued_with": "every action sequence up to the depth bound, e.g. + " + repr([list(a) for a in actions_for(nprocs, [False] * nprocs, public)[:3]])})
             nodes = probes = 0
             # the nodes on the shared prefixes are re-executed by every task; count distinct sequences instead
             for r in ex.pool.imap_unordered(_call_task, tasks, chunksize=1):
@@ -730,6 +732,7 @@ def main(tier):
     if total_nodes < 100 or (complete and total_sched < 20):
         rep.harness_errors.append("vacuous: %d call sequences, %d schedules" % (total_nodes, total_sched))
     rep.coverage = {"states": total_nodes + total_sched, "transitions": total_nodes + total_probes + total_sched, "traces_validated_against_impl": total_nodes + total_sched,
+                    "samples": samples_a[:3] + [{"pair": c["pair"], "first_scheduling_points_of_the_default_schedule": c.get("first_points"), "example_schedule": [0] * 5 + [1]} for c in cov_b[:3]],
                     "exhaustive": complete, "call_granularity": cov_a, "file_operation_granularity": cov_b, "variant": "ossl-plain",
                     "rule": "states = call sequences executed on real processes (part a: every sequence up to the stated depth, each followed by a probe of every process and of a silent witness) "
                             "+ syscall-level schedules executed (part b: every schedule with at most the stated number of preemptions); nothing is merged"}
